@@ -139,6 +139,7 @@ fn doc_cost_prefix(seq: &[usize]) -> (usize, usize) {
 }
 fn ix_body<C: IndexContainer<usize> + Clone>(v: &[u64], compressed: bool, list: bool) {
     let want: Vec<usize> = v[1..5].iter().take(v[5] as usize).map(|k| ALPHA[*k as usize] as usize).collect();
+    crate::section("VF:index.sequence");
     let mut c = C::default();
     vassert!(c.is_empty() && c.len() == 0, "VF:index.default_not_empty");
     if v[6] == 0 {
@@ -155,6 +156,7 @@ fn ix_body<C: IndexContainer<usize> + Clone>(v: &[u64], compressed: bool, list: 
     vassert!(c.len() == want.len() && c.is_empty() == want.is_empty(), "VF:index.len");
     vassert!(c.iter().eq(want.as_slice().iter().copied()), "VF:index.iter");
     vassert!(c.clone().iter().count() == want.len(), "VF:index.clone_iter");
+    crate::section("VF:index.heap");
     let hp = collect_heap(|cb| c.heap_size(cb));
     vassert!(hp.iter().all(|p| p.0 <= p.1), "VF:index.heap.used_exceeds_capacity");
     let used: usize = hp.iter().map(|p| p.0).sum();
@@ -175,12 +177,15 @@ fn ix_body<C: IndexContainer<usize> + Clone>(v: &[u64], compressed: bool, list: 
     } else {
         vassert!(used == 8 * want.len(), "VF:index.heap.vec_cost");
     }
+    crate::section("VF:index.reserve_changed_contents");
     c.reserve(2);
     vassert!(c.iter().eq(want.as_slice().iter().copied()), "VF:index.reserve_changed_contents");
+    crate::section("VF:index.clear");
     c.clear();
     vassert!(c.is_empty() && c.len() == 0 && c.iter().count() == 0, "VF:index.clear");
     c.push(7);
     vassert!(c.len() == 1 && c.index(0) == 7, "VF:index.push_after_clear");
+    crate::section("VF:index.with_capacity_not_empty");
     let w = C::with_capacity(3);
     vassert!(w.is_empty(), "VF:index.with_capacity_not_empty");
 }
